@@ -282,10 +282,35 @@ def no_error_turned_into_success(ctx, prog, rule, floor=300):
     from simple_rules import assume_result_of_call
     tested = 0
     for p, f in sorted(prog.fns.items()):
-        if not f.ret_ty().startswith("std::result::Result<"):
+        opt = f.ret_ty().startswith("std::option::Option<std::result::Result<")
+        if not f.ret_ty().startswith("std::result::Result<") and not opt:
             continue
         errs = f.err_exit_blocks()
         rets = set(f.return_blocks())
+        if opt:
+            # iterator protocol (`fn next() -> Option<Result<T>>`): the error side has to end in Some(Err(..)); ending the
+            # iteration (None) or yielding a value hides the failure
+            Rf = Resolver(f, max_depth=12)
+
+            def is_err(t):
+                t = strip(t)
+                if t[0] == "agg" and t[1][0] == "adt":
+                    return t[1][2] == "Err"
+                if t[0] == "call":
+                    return t[1].endswith("::from_residual") or prog.is_always_err(t[1])
+                if t[0] == "phi":
+                    return all(is_err(a) for a in t[1])
+                return False
+            errs = set()
+            for bi_, si_, cls_, payload_ in f.ret_assignments():
+                if cls_ == "some":
+                    v_ = strip(Rf.rvalue(payload_))
+                    if v_[0] == "agg" and v_[2] and is_err(v_[2][0]):
+                        errs.add(bi_)
+                elif cls_ == "err":
+                    errs.add(bi_)
+            if not errs:
+                continue
         for bi, t in f.calls():
             if t["dest"]["proj"] or t["target"] < 0 or not f.local_ty(t["dest"]["local"]).startswith("std::result::Result<"):
                 continue
